@@ -4,7 +4,7 @@
     implementation did (writes to the child's stdin per read, which IO threads died
     of ResponseNotAccepted, what the call raised) -- plus what the real [re.findall]
     counted for every pattern on every stream's whole text. *)
-From InvokeVerif Require Export Model.WatchModel Spec.C12Spec.
+From InvokeVerif Require Export Model.WatchModel Model.WatchBytesModel Spec.C12Spec Spec.C12BytesSpec.
 
 (** The variant of the model that describes /repo: the code after the fixes
     28f435d / 380f659 (F-C12a, F-C12b repaired). *)
@@ -24,27 +24,40 @@ Record case := mk {
   c_how : via;
   c_eof : bool;                              (* in_stream at end-of-file (else in_stream=False) *)
   c_calls : list call_obs;                   (* successive calls, same objects *)
-  c_occ : list (pattern * string * nat)      (* (pattern, text, len(re.findall(pattern, text, re.S))) *)
+  c_occ : list (pattern * string * nat);     (* (pattern, text, len(re.findall(pattern, text, re.S))) *)
+  c_bytes : bool                             (* the schedules are BYTE reads (UTF-8, one character per
+                                                byte, cut anywhere); else text reads *)
 }.
+
+(** The schedule of text reads the model works on: the reads themselves, or -- byte
+    reads -- what each IO thread's own incremental decoder makes of them. *)
+Definition model_sched (bytes : bool) (sched : list event) : list event :=
+  if bytes then text_events (decoded sched) else sched.
+
+(** What the specification judges: the reads themselves, or the whole characters
+    each byte read completes on its stream. *)
+Definition spec_sched (bytes : bool) (sched : list event) : list event :=
+  if bytes then text_sched [] [] sched else sched.
 
 (** per read, the text written (not the write calls) *)
 Definition writes_eqb (a b : list (list string)) : bool :=
   list_eqb (fun x y => String.eqb (flat x) (flat y)) a b.
 
-Definition call_corr (v : variant) (eof : bool) (ws : list watcher) (how : via) (k : call_obs) : bool :=
+Definition call_corr (v : variant) (eof bytes : bool) (ws : list watcher) (how : via) (k : call_obs) : bool :=
+  (if bytes then in_region (k_sched k) else true) &&
   if eof then
-    let '(w, r, broke) := run_eof v ws (k_sched k) in
+    let '(w, r, broke) := run_eof v ws (model_sched bytes (k_sched k)) in
     writes_eqb w (k_writes k)
     && Bool.eqb (fst r) (fst (k_raised k)) && Bool.eqb (snd r) (snd (k_raised k))
     && opt_exn_eqb (outcome_exn_eof how r broke) (k_exc k)
   else
-    let '(w, r) := run v ws (k_sched k) in
+    let '(w, r) := run v ws (model_sched bytes (k_sched k)) in
     writes_eqb w (k_writes k)
     && Bool.eqb (fst r) (fst (k_raised k)) && Bool.eqb (snd r) (snd (k_raised k))
     && opt_exn_eqb (outcome_exn how r) (k_exc k).
 
 Definition corr_with (v : variant) (c : case) : bool :=
-  forallb (call_corr v (c_eof c) (call_watchers (c_cfg_ws c) (c_kw_ws c) (c_sudo c)) (c_how c))
+  forallb (call_corr v (c_eof c) (c_bytes c) (call_watchers (c_cfg_ws c) (c_kw_ws c) (c_sudo c)) (c_how c))
           (c_calls c).
 
 (** the regex-family semantics agrees with the real [re] module on this case *)
@@ -57,5 +70,6 @@ Definition corr (c : case) : bool := corr_with impl_variant c && re_ok c.
 Definition corr_before_fix (c : case) : bool := corr_with before_fix c.
 
 Definition spec (c : case) : bool :=
-  forallb (fun k => spec_ok (spec_watchers (c_cfg_ws c) (c_kw_ws c) (c_sudo c)) (k_sched k) (c_how c)
+  forallb (fun k => spec_ok (spec_watchers (c_cfg_ws c) (c_kw_ws c) (c_sudo c))
+                            (spec_sched (c_bytes c) (k_sched k)) (c_how c)
                             (k_writes k) (k_raised k) (k_exc k)) (c_calls c).
